@@ -587,6 +587,95 @@ func (s *sched) lockWindow(id int) {
 	s.dump()
 }
 
+// windowCommit: the commit of transaction id in micro-steps, with concurrent plain readers (through the cache) at the
+// two hook points of the commit window: r0 before the underlying commit, r1 between it and the evictions from the parent
+// cache. Direct predicate ("the writes of a committed transaction become visible together"): among the reads of r1, once
+// one key the transaction changed shows its NEW value, no key it changed may still show its OLD value.
+func (s *sched) windowCommit(id int, r0, r1 []string) {
+	w := vh.I(int64(id))
+	raw := func(k string) string {
+		e, err := s.bl.raw.Get(s.ctx, s.bl.prefix+k)
+		if err != nil {
+			return "err"
+		}
+		if e == nil {
+			return "nil"
+		}
+		return "v:" + vh.Hex(e.Value)
+	}
+	pre := map[string]string{}
+	s.out.Op("ok", "cstart", w)
+	s.bl.h.atStart = func() {
+		for _, k := range s.wset[id] {
+			pre[k] = raw(k)
+		}
+		for _, k := range r0 {
+			s.hget(k)
+		}
+	}
+	s.bl.h.after = func(err error) {
+		s.out.Op(resErr(err), "cunder", w)
+		sawNew := ""
+		for _, k := range r1 {
+			got := vh.Catch(func() string { return resGet(s.st.Get(s.ctx, k)) })
+			res := got
+			if p, written := pre[k]; err == nil && written {
+				post := raw(k)
+				switch {
+				case p != post && got == post && sawNew == "":
+					sawNew = k
+				case p != post && got == p && sawNew != "" && sawNew != k:
+					res += "!VIOL:a plain reader inside the commit window of transaction " + w + " saw the NEW value of " + sawNew + " and afterwards the OLD value of " + k + ": the writes of a committed transaction did not become visible together#F94:cache-window-half-visible"
+				}
+			}
+			s.out.Op(res, "hget", k)
+		}
+	}
+	res := vh.Catch(func() string { return resErr(s.txns[id].Commit(s.ctx)) })
+	if s.bl.h.atStart != nil || s.bl.h.after != nil {
+		s.t.Fatalf("commit of transaction %d did not pass the hook points", id)
+	}
+	s.out.Op(res, "commit", w)
+	s.done[id] = true
+	s.cohere()
+	s.dump()
+}
+
+// halfVisibleCase (cache layers, directed): k1 is in the parent cache, k2 is not; a transaction changes both; inside its
+// commit window a plain reader reads k2 (miss: the backend's new value) and then k1 (hit: the old value).
+func halfVisibleCase(t *testing.T, out *vh.Out, layer string) {
+	out.Reset()
+	st, bl := newStore(t, layer)
+	if bl.h == nil {
+		return
+	}
+	s := &sched{t: t, out: out, ctx: context.Background(), st: st, bl: bl, g: newCaseGen(vh.NewRand(7))}
+	out.Op("ok", "layer", layer)
+	f := []string{"stripes"}
+	for _, k := range s.g.keys {
+		f = append(f, k, vh.I(int64(locksutil.LockIndexForKey(bl.prefix+k))))
+	}
+	out.Op("ok", f...)
+	k1, k2 := s.g.keys[0], s.g.keys[1]
+	for _, k := range []string{k1, k2} {
+		out.Op(resErr(s.st.Put(s.ctx, k, values[0])), "put", "p", k, vh.Hex(values[0]))
+	}
+	bl.purge()
+	out.Op("ok", "purge")
+	out.Op(vh.Catch(func() string { return resGet(s.st.Get(s.ctx, k1)) }), "get", "p", k1)
+	tx, err := s.st.Begin(s.ctx, false)
+	if err != nil {
+		t.Fatalf("begin: %v", err)
+	}
+	s.txns, s.ro, s.done, s.wset = append(s.txns, tx), append(s.ro, false), append(s.done, false), append(s.wset, nil)
+	out.Op("ok", "begin", "0", "rw")
+	for _, k := range []string{k1, k2} {
+		out.Op(resErr(tx.Put(s.ctx, k, values[1])), "put", "0", k, vh.Hex(values[1]))
+		s.wset[0] = append(s.wset[0], k)
+	}
+	s.windowCommit(0, nil, []string{k2, k1})
+}
+
 func (s *sched) finish(id int, commit bool) {
 	w := vh.I(int64(id))
 	if commit && s.bl.h != nil && !s.done[id] && lockWindowsLeft > 0 && s.g.rng.Chance(35) {
@@ -596,27 +685,7 @@ func (s *sched) finish(id int, commit bool) {
 	}
 	if commit && s.bl.h != nil && !s.done[id] && s.g.rng.Chance(50) {
 		// commit in micro-steps: concurrent plain readers at the two hook points of the commit window
-		r0, r1 := s.readerKeys(id), s.readerKeys(id)
-		s.out.Op("ok", "cstart", w)
-		s.bl.h.atStart = func() {
-			for _, k := range r0 {
-				s.hget(k)
-			}
-		}
-		s.bl.h.after = func(err error) {
-			s.out.Op(resErr(err), "cunder", w)
-			for _, k := range r1 {
-				s.hget(k)
-			}
-		}
-		res := vh.Catch(func() string { return resErr(s.txns[id].Commit(s.ctx)) })
-		if s.bl.h.atStart != nil || s.bl.h.after != nil {
-			s.t.Fatalf("commit of transaction %d did not pass the hook points", id)
-		}
-		s.out.Op(res, "commit", w)
-		s.done[id] = true
-		s.cohere()
-		s.dump()
+		s.windowCommit(id, s.readerKeys(id), s.readerKeys(id))
 		return
 	}
 	if commit {
@@ -727,6 +796,9 @@ func TestVerifC08Inmem(t *testing.T) {
 	if vh.Thorough() {
 		n = vh.EnvInt("VERIF_C08_CASES", 200000)
 		lockWindowsLeft = vh.EnvInt("VERIF_C08_LOCKWINDOWS", 4000)
+	}
+	for _, layer := range layers {
+		halfVisibleCase(t, out, layer)
 	}
 	for i := 0; i < n; i++ {
 		cr := rng.Fork(uint64(i))
